@@ -94,7 +94,8 @@ def eval_case(ctx, case):
     """case: {tree, nested: dir|None, fmts, pats: [..], order: None|'reversed', meta: bool}"""
     v = []
     tree, fmts, pats, nested = case["tree"], case["fmts"], case.get("pats") or [], case.get("nested")
-    sig = {"fmts": "all" if len(fmts) > 1 else fmts[0], "nested": nested is not None, "order": case.get("order")}
+    sig = {"fmts": "all" if len(fmts) > 1 else fmts[0], "nested": nested is not None, "order": case.get("order"),
+           "altered": bool(case.get("alter"))}
     stats = {"cmds": 0, "dirs": 0}
 
     def V(kind, detail, **extra):
@@ -110,6 +111,9 @@ def eval_case(ctx, case):
         if case.get("prior"):   # an earlier generation in another format must not influence the new directory hashes
             res, t = ops.run_cmd(ctx, t, ops.create("", case["prior"], i=pats), now - 50, order=case.get("order"))
             stats["cmds"] += 1
+        if case.get("alter"):   # ... nor must a file whose recorded digest no longer verifies (exit 11) drop out of them
+            t = ops.edit(t, ["write", case["alter"], t[case["alter"]] + b" (altered after the first generation)"])
+            tree = ref.media(t)
         if nested is not None:
             res, t = ops.run_cmd(ctx, t, ops.create(nested, ["md5"], i=pats), now, order=case.get("order"))
             stats["cmds"] += 1
@@ -118,7 +122,7 @@ def eval_case(ctx, case):
                 return v, stats
         res, post = ops.run_cmd(ctx, t, ops.create("", fmts, i=pats), now + 10, order=case.get("order"))
         stats["cmds"] += 1
-        if res.exit != 0 or res.exc:
+        if res.exit != (11 if case.get("alter") else 0) or res.exc:
             V("abort", f"create exit {res.exit} {res.exc}\n{res.err[-300:]}")
             return v, stats
         got = manifest_dirhashes(post)
@@ -262,6 +266,9 @@ def main(tier, seed):
             cases.append({"tree": st, "fmts": fs, "order": "reversed"})
             cases.append({"tree": st, "fmts": fs, "prior": ["xxh64"]})
         cases.append({"tree": st, "fmts": ["xxh64", "md5"], "nested": sorted(p for p, c in st.items() if c is DIR)[0]})
+        deep = sorted((p for p, c in st.items() if c is not DIR), key=lambda p: -p.count("/"))[0]
+        for fs in (["md5"], ["xxh64", "md5"], ["c4", "sha1"], ["xxh64"]):
+            cases.append({"tree": st, "fmts": fs, "prior": ["xxh64"], "alter": deep})
     for f in ref.FORMATS_CLI:
         cases.append({"synthetic": f, "tree": {}, "fmts": [f]})
     if tier == "thorough":
